@@ -12,3 +12,6 @@ import RaftWal.Props.C02
 #print axioms RaftWal.C02.chain_atomic_rec_any_size
 #print axioms RaftWal.C02.byte_level_refines_protocol_file
 #print axioms RaftWal.C02.protocol_outcomes_realised_at_byte_level
+#print axioms RaftWal.C02.failed_append_stale_bytes_fabricate_an_entry
+#print axioms RaftWal.C02.chain_atomic_with_faults_refuted
+#print axioms RaftWal.C02.chain_atomic_faults_partial
